@@ -38,6 +38,7 @@ class Result(object):
         self.probes = {}
         self.faults = {}
         self.io_events = 0
+        self.sim_seconds = 0.0
         self.steps = 0
         self.compared = 0
         self.skipped_ops = 0
@@ -61,7 +62,7 @@ class Result(object):
             'violations': [v.as_dict() for v in self.violations],
             'known': [(fid, v.as_dict()) for fid, v in self.known],
             'sig': short_hash(self.sig), 'nontrivial': self.nontrivial, 'probes': self.probes,
-            'faults': self.faults, 'io_events': self.io_events, 'steps': self.steps, 'compared': self.compared,
+            'faults': self.faults, 'io_events': self.io_events, 'sim_seconds': self.sim_seconds, 'steps': self.steps, 'compared': self.compared,
             'skipped_ops': self.skipped_ops, 'backend': self.backend, 'sub_evals': self.sub_evals,
             'digest': self.digest(),
         }
